@@ -781,6 +781,37 @@ func (P *Prog) isCoercedValue(rv ssa.Value) bool {
 		}
 		return true
 	}
+	// the result of a module helper (`refVal, ok := v.sourceSlice(ctx)`): every return that does not signal
+	// failure (a constant false among its results) hands back a coerced value
+	if ex, isEx := v.(*ssa.Extract); isEx {
+		if hc, isCall := ex.Tuple.(*ssa.Call); isCall {
+			if callee := callOf(hc).static; callee != nil && callee.Blocks != nil && inModule(funcPkgPath(callee)) {
+				n, all := 0, true
+				eachInstr(callee, func(_ *ssa.BasicBlock, _ int, in ssa.Instruction) {
+					rt, ok := in.(*ssa.Return)
+					if !ok || ex.Index >= len(rt.Results) {
+						return
+					}
+					rvs, okRV := retVals(rt)
+					if !okRV {
+						return
+					}
+					for j, o := range rvs {
+						if j != ex.Index {
+							if b, isB := constBool(o); isB && !b {
+								return // failure return
+							}
+						}
+					}
+					n++
+					if !P.isCoercedValue(rvs[ex.Index]) {
+						all = false
+					}
+				})
+				return n > 0 && all
+			}
+		}
+	}
 	c, ok := v.(*ssa.Call)
 	if !ok {
 		return false
